@@ -7,7 +7,7 @@
     the declared where-clause is always kept.  [struct_vplans] / [enum_vplans] say which positions
     take part for each trait.  Comparison helper attributes: most specific first at every placement. *)
 From DX Require Import Syntax Tables GenBound GenAttrs IR GenType GenCmp GenImpl GenTop
-     SpecAttrs SpecBound LemDump LemBound.
+     SpecAttrs SpecBound LemDump LemBound LemBoundList.
 
 (** every impl derived from a struct — any trait, any fields, any assignment of bounds to levels *)
 Theorem C04_struct :
@@ -50,7 +50,22 @@ Example C04_example :
   snd (resolve [lv1; bounds_new; lv2; lv3] true) = false.
 Proof. split; reflexivity. Qed.
 
+(** what one `bound(...)` list contributes: its types and predicates in the order written; the lower levels stay
+    in play iff `..` occurs ANYWHERE in it *)
+Theorem C04_bound_list_reading :
+  forall l, bounds_from (Some l) = {| b_ty := types_of l; b_pred := preds_of l; b_default := existsb is_dots l |}.
+Proof. exact bounds_from_reading. Qed.
+
+Theorem C04_dots_position_immaterial :
+  forall l1 l2,
+    b_default (bounds_from (Some (l1 ++ BDefault :: l2))) = true /\
+    b_ty (bounds_from (Some (l1 ++ BDefault :: l2))) = b_ty (bounds_from (Some (BDefault :: l1 ++ l2))) /\
+    b_pred (bounds_from (Some (l1 ++ BDefault :: l2))) = b_pred (bounds_from (Some (BDefault :: l1 ++ l2))).
+Proof. exact bounds_from_dots_position. Qed.
+
 Print Assumptions C04_struct.
 Print Assumptions C04_enum.
 Print Assumptions C04_type_level_has_no_arg_levels.
 Print Assumptions C04_declared_kept.
+Print Assumptions C04_bound_list_reading.
+Print Assumptions C04_dots_position_immaterial.
